@@ -1199,7 +1199,7 @@ def _rows(a, n):
     return a.reshape(n, -1)
 
 
-@contract("C19", "view_defgrad", configs=[dict(view="ViewField", only="defgrad"), dict(view="ViewSolid", stress_type="Cauchy", only="defgrad")])
+@contract("C19", "view_defgrad", configs=[dict(view="ViewField", only="defgrad"), dict(view="ViewSolid", stress_type=None, only="defgrad")])
 def view_defgrad(vk, cfg):
     """cell data "Deformation Gradient" of ViewField / ViewSolid: per cell the 9 components (row-major, the
     VTK tensor convention and the layout of Job's file export) of the quadrature-point mean of F"""
